@@ -1661,3 +1661,130 @@ func vLemmaUnion(owner *Collection, setup bool, index []uint64, a, b string) {
 	vAssert("setup", txn.setup)
 	vAssert("released", vNothingHeld())
 }
+
+// ---------------------------------------------------------------------------------------------
+// Applying a block of a transaction (C01, C03, C06, C11, C16, C19).
+
+// column.Apply: under the column's read lock the reader is rewound to the start of its run and handed, with the
+// block, to the implementation; nothing is held afterwards.
+var (
+	vImplApplyCalls   int
+	vImplApplyChunk   commit.Chunk
+	vImplApplyRewound bool
+	vImplApplyLocked  bool
+)
+
+//@ model column.Column.Apply
+func vModelColumnImplApply(c Column, chunk commit.Chunk, r *commit.Reader) {
+	vImplApplyCalls++
+	vImplApplyChunk, vImplApplyRewound, vImplApplyLocked = chunk, commit.VRewound(r), vOtherW == 0 && !vColW
+}
+
+//@ lemma props=C01,C03,C18 real=column.(*column).Apply
+func vLemmaColumnApply(c *column, chunk commit.Chunk, buf []byte, s int, pos int, prev int32) {
+	vAssume(c != nil && vNoLatchHeld() && vColR == 0 && !vColW && vOtherW == 0 && 0 <= s && s <= pos && pos <= len(buf))
+	b := commit.VBuffer(buf, 0, 0)
+	r := commit.NewReader()
+	commit.VPlace(r, b, s, pos, prev) // somewhere inside its run
+	vImplApplyCalls = 0
+	c.Apply(chunk, r)
+	vAssert("implementation-applied-once-to-the-block", vImplApplyCalls == 1 && vImplApplyChunk == chunk)
+	vAssert("reader-rewound-to-the-run-start", vImplApplyRewound)
+	vAssert("released", vNoLatchHeld() && vColR == 0 && !vColW && vOtherW == 0)
+}
+
+// ghost observer of column.Apply for the functions that drive it
+var (
+	vColApplyCalls  int
+	vColApplyLast   *column
+	vColApplyFirst  *column
+	vColApplyPass   [4]int // the Reader.Range pass during which the k-th call was made
+	vColApplyOf     [4]*column
+	vColApplyChunk  commit.Chunk
+	vColApplyReader *commit.Reader
+	vColApplyMutex  bool
+)
+
+//@ contract target=column.(*column).Apply use verify=no
+func vContractColumnApplyGhost(c *column, chunk commit.Chunk, r *commit.Reader) {
+	c.Apply(chunk, r)
+	vAssume(vColApplyCalls < 4)
+	vColApplyPass[vColApplyCalls], vColApplyOf[vColApplyCalls] = vRangePasses, c
+	vColApplyCalls++
+	vColApplyChunk, vColApplyReader, vColApplyMutex = chunk, r, vColW
+}
+
+// commitMarkers, for one marker of the block: under the collection mutex an Insert marks the offset in the fill list
+// and a Delete unmarks it (other offsets keep their state); then EVERY registered column - value columns, indexes,
+// key table, sorted indexes, triggers alike - is handed the markers of the block (that is how a row delete clears
+// the row's values and index entries); finally the count is recomputed from the fill list under the mutex.
+//
+//@ lemma props=C11,C03,C02,C12,C16,C19 mode=paths real=column.(*Txn).commitMarkers
+func vLemmaCommitMarkers(owner *Collection, buf []byte, last int32, cur commit.Chunk, s int, sel uint8, idx uint32, window []uint64) {
+	chunk := commit.ChunkAt(idx)
+	vAssume(owner != nil && vNothingHeld() && len(owner.fill) <= 1<<25 && len(buf) < 1<<30)
+	vAssume(idx < 1<<31 && last >= 0 && 0 <= s && s <= len(buf) && sel <= 2 && vShortDelta(last, idx, cur, chunk))
+	vCol = owner
+	oldFill := append([]uint64(nil), owner.fill...)
+	b := commit.VBuffer(buf, last, cur)
+	vRunS, vRunPos, vRunPrev = s, len(buf), last
+	switch sel {
+	case 0:
+		b.PutOperation(commit.Insert, idx)
+	case 1:
+		b.PutOperation(commit.Delete, idx)
+	default:
+		b.PutOperation(commit.Skip, idx)
+	}
+	txn := &Txn{owner: owner, reader: commit.NewReader()}
+	vRangePasses, vColApplyCalls, vColumnsRangeCalls = 0, 0, 0
+	txn.commitMarkers(chunk, window, b)
+	fill := owner.fill
+	switch sel {
+	case 0:
+		vAssert("insert-marks-the-offset", int(idx>>6) < len(fill) && vBit(fill, idx))
+	case 1:
+		vAssert("delete-unmarks-the-offset", int(idx>>6) >= len(fill) || !vBit(fill, idx))
+	default:
+		vAssert("other-kinds-leave-the-fill-list", len(fill) == len(oldFill) && (int(idx>>6) >= len(fill) || vBit(fill, idx) == vBit(oldFill, idx)))
+	}
+	vAssert("other-offsets-keep-their-state", len(fill) >= len(oldFill) && vForall(0, len(oldFill), func(w int) bool {
+		m := uint64(0)
+		if uint32(w) == idx>>6 {
+			m = 1 << (idx & 63)
+		}
+		return fill[w]&^m == oldFill[w]&^m
+	}))
+	vAssert("both-passes-over-the-marker-buffer-of-the-block", vRangePasses == 2 && vRangeChunk == chunk && vRangeBuffer == b)
+	vAssert("every-registered-column-gets-the-markers", vColumnsRangeCalls == 1 && vColApplyCalls == 1 && vColApplyChunk == chunk && vColApplyReader == txn.reader)
+	vAssert("recount-under-mutex", owner.count == uint64(vLastCount) && vSameSlice(vCountOf, owner.fill))
+	vAssert("released", vNothingHeld())
+}
+
+// commitUpdates, for one buffer of the transaction: nothing happens for an empty buffer, the row buffer or an
+// unregistered name; otherwise the main column is applied first, in a pass of its own - it may rewrite merges and
+// append to the buffer - and AFTER that pass has ended every computed column of the name is applied in a second pass
+// (a pass covers the runs present when it starts, commit.vLemmaReaderRange: only a pass begun after the main column
+// is done shows the computed columns the final values).
+//
+//@ lemma props=C01,C03,C06,C16,C19 mode=paths real=column.(*Txn).commitUpdates
+func vLemmaCommitUpdates(owner *Collection, u *commit.Buffer, chunk commit.Chunk) {
+	vAssume(owner != nil && u != nil && vNothingHeld() && 0 <= vRunS && vRunS <= vRunPos && vRunPos <= commit.VLen(u))
+	vCol = owner
+	txn := &Txn{owner: owner, reader: commit.NewReader(), updates: []*commit.Buffer{u}}
+	vRangePasses, vColApplyCalls = 0, 0
+	vLoadWithIndexName = ""
+	updated := txn.commitUpdates(chunk)
+	if u.IsEmpty() || u.Column == rowColumn {
+		vAssert("empty-or-row-buffer-skipped", !updated && vRangePasses == 0 && vColApplyCalls == 0)
+	} else {
+		vAssert("looked-up-by-the-buffer's-column", vLoadWithIndexName == u.Column)
+		if vColApplyCalls > 0 {
+			vAssert("reports-updated", updated)
+			vAssert("main-column-first-in-its-own-pass", vColApplyPass[0] == 1 && vColApplyChunk == chunk && vColApplyReader == txn.reader && vRangeBuffer == u)
+			vAssert("computed-columns-in-a-later-pass", vColApplyCalls == 1 || (vRangePasses == 2 &&
+				vForall(1, vColApplyCalls, func(k int) bool { return vColApplyPass[k] == 2 })))
+		}
+	}
+	vAssert("released", vNothingHeld())
+}
